@@ -40,4 +40,60 @@ theorem shouldAccept_matches_source (cfg : Cfg) (s : State) (now : Nat) (keys : 
   unfold shouldAccept
   cases keys <;> simp [Gen.Src.c17AcceptNoKeys]
 
+/-! ### decision trees of the glue (`kind: tree`) -/
+
+/-- outcome of `ShouldAcceptFinalizedReport` at each exit of the regenerated tree: 1 = empty report `(false, nil)`;
+2 = undecodable report, 3 = no keys `(false, err)`; 5 (after the loop) = the accept loop's result -/
+def shouldAcceptSrc (cfg : Cfg) (s : State) (now : Nat) (keys : List Str) (reportLen : Nat) (decodeFailed : Bool) :
+    State × Bool × Bool :=
+  match Gen.Src.c17ShouldAcceptTree reportLen decodeFailed keys.length with
+  | 1 => (s, false, false)
+  | 2 => (s, false, true)
+  | 3 => (s, false, true)
+  | _ => ((acceptLoop cfg s now keys).1, !(acceptLoop cfg s now keys).2, (acceptLoop cfg s now keys).2)
+
+/-- **`ShouldAcceptFinalizedReport` is the source's decision tree** (for the reports the model speaks about: non-empty
+and decodable): `len(keys) == 0` → error before any `Accept`; otherwise the loop -/
+theorem shouldAccept_tree_matches_source (cfg : Cfg) (s : State) (now : Nat) (keys : List Str) (reportLen : Nat)
+    (hr : reportLen ≠ 0) : shouldAccept cfg s now keys = shouldAcceptSrc cfg s now keys reportLen false := by
+  unfold shouldAccept shouldAcceptSrc
+  cases keys <;> simp [Gen.Src.c17ShouldAcceptTree, hr]
+
+/-- **the accept loop's body**: `Accept` fails (the key does not split) → `return false, err` (exit 1) with the keys
+before it registered; else on to the next key (exit 0) -/
+theorem acceptLoop_tree_matches_source (cfg : Cfg) (s : State) (now : Nat) (k : Str) (ks : List Str) :
+    acceptLoop cfg s now (k :: ks) =
+      if Gen.Src.c17ShouldAcceptLoopTree (splitUpkeepKey k).isNone = 1 then (s, true)
+      else acceptLoop cfg (accept cfg s now k) now ks := by
+  cases hs : splitUpkeepKey k <;> simp [acceptLoop, hs, Gen.Src.c17ShouldAcceptLoopTree]
+
+/-- **`ShouldTransmitAcceptedReport` is the source's decision tree**: undecodable (exit 1) / no keys (exit 2) → error;
+otherwise the loop, which returns `true` at the first unconfirmed key (exit 1 of its body), `false` after it (exit 4) -/
+theorem shouldTransmit_tree_matches_source (s : State) (now : Nat) (keys : List Str) :
+    shouldTransmit s now keys =
+      (match Gen.Src.c17ShouldTransmitTree false keys.length with
+       | 1 => (false, true)
+       | 2 => (false, true)
+       | _ => (keys.any fun k => !isConfirmed s now k, false)) ∧
+    ∀ k ks, ((k :: ks).any fun k => !isConfirmed s now k) =
+      if Gen.Src.c17ShouldTransmitLoopTree (isConfirmed s now k) = 1 then true
+      else ks.any fun k => !isConfirmed s now k := by
+  constructor
+  · unfold shouldTransmit
+    cases keys <;> simp [Gen.Src.c17ShouldTransmitTree]
+  · intro k ks
+    cases h : isConfirmed s now k <;> simp [Gen.Src.c17ShouldTransmitLoopTree, h]
+
+/-- **the loop body of `Observe`**: `pending || err != nil` → `continue` (exit 1, the id is dropped, whichever log line
+is printed); else the id is appended (exit 0) -/
+theorem observe_tree_matches_source (s : State) (now : Nat) (b id : Str) (ids : List Str) :
+    observeIds s now { block := b, ids := id :: ids } =
+      if Gen.Src.c17ObserveLoopTree (isPending s now (makeUpkeepKey b id)).1 (isPending s now (makeUpkeepKey b id)).2 = 0
+      then id :: observeIds s now { block := b, ids := ids }
+      else observeIds s now { block := b, ids := ids } := by
+  unfold observeIds passes
+  simp only [List.filter_cons]
+  cases h1 : (isPending s now (makeUpkeepKey b id)).1 <;> cases h2 : (isPending s now (makeUpkeepKey b id)).2 <;>
+    simp_all [Gen.Src.c17ObserveLoopTree]
+
 end AutoVerif.C17
